@@ -73,6 +73,10 @@ func (s *Module) AddStateRoot(sr *state.MPTRoot) error {
 	}
 	putStateRoot(s.Store, key, sr)
 
+	// Validated roots can arrive in any order, the validated height only grows.
+	if sr.Index <= s.validatedHeight.Load() {
+		return nil
+	}
 	data := make([]byte, 4)
 	binary.LittleEndian.PutUint32(data, sr.Index)
 	s.Store.Put([]byte{byte(storage.DataMPTAux), prefixValidated}, data)
